@@ -142,6 +142,17 @@ def build_occupant(root, occ):
         with open(p, 'w') as f:
             f.write('a plain user file')
         return p, [p]
+    elif occ in ('symlink_file', 'symlink_dir', 'symlink_dangling'):
+        ext = os.path.join(root, 'external')
+        os.makedirs(os.path.join(ext, 'adir'))
+        with open(os.path.join(ext, 'afile.tar.xz'), 'w') as f:
+            f.write('precious')
+        with open(os.path.join(ext, 'adir', 'inner.txt'), 'w') as f:
+            f.write('inner')
+        tgt = {'symlink_file': os.path.join(ext, 'afile.tar.xz'), 'symlink_dir': os.path.join(ext, 'adir'),
+               'symlink_dangling': os.path.join(ext, 'nothing-here')}[occ]
+        os.symlink(tgt, p)
+        return p, [p, ext]
     elif occ == 'dir_foreign':
         os.mkdir(p)
     elif occ == 'array_larger':
